@@ -522,35 +522,55 @@ theorem compile_perm (m m' : Model α) (tol : α) (maxSteps : Nat)
     | .ok lm, .ok lm' => SameUpToDomainOrder lm lm'
     | .error e, .error e' => e = e'
     | _, _ => False := by
+  -- the up-front collapse check (rooc e35561f) on the two scratch contexts: same verdict
+  have hSscr : S (Compile.scratchState m tol maxSteps) (Compile.scratchState m' tol maxSteps) :=
+    ⟨rfl, rfl, rfl, rfl, rfl, rfl, rfl, rfl, rfl, rfl, rfl, hp, hn, fun x => by
+      show lookupB (Compile.toLinBounds _) x = lookupB (Compile.toLinBounds _) x
+      rw [lookupB_toLinBounds', lookupB_toLinBounds', (analyze_A hp hn [] tol maxSteps).vb]⟩
+  have hchk := collapseCheckAll2 m _ _ hSscr
+  have hmchk : collapseCheckAll m' = collapseCheckAll m := by
+    unfold collapseCheckAll; rw [hobj, hc]
   unfold Compile.linearize
-  rw [hc]
-  cases hnf : Compile.normalizedForBounds m.constraints with
-  | none => simp
-  | some cs =>
+  rw [hmchk]
+  unfold RunRel at hchk
+  cases h1 : collapseCheckAll m (Compile.scratchState m tol maxSteps) with
+  | error e =>
+    cases h2 : collapseCheckAll m (Compile.scratchState m' tol maxSteps) with
+    | error e' => rw [h1, h2] at hchk; simpa using hchk
+    | ok q => rw [h1, h2] at hchk; exact hchk.elim
+  | ok q =>
+   cases h2 : collapseCheckAll m (Compile.scratchState m' tol maxSteps) with
+   | error e' => rw [h1, h2] at hchk; exact hchk.elim
+   | ok q' =>
     dsimp only
-    have hA : A ((Analyzer.analyze m.domain cs tol maxSteps).enforceable m.domain)
-        ((Analyzer.analyze m'.domain cs tol maxSteps).enforceable m'.domain) :=
-      enforceable_A (analyze_A hp hn cs tol maxSteps) hp hn
-    have hdom := applyToDomain_A hA hp
-    have hnd : ((((Analyzer.analyze m.domain cs tol maxSteps).enforceable m.domain).applyToDomain m.domain).map
-        (·.name)).Nodup := by rw [applyToDomain_names]; exact hn
-    have hb : ∀ x, lookupB (Compile.toLinBounds
-          ((Analyzer.analyze m.domain cs tol maxSteps).enforceable m.domain).variableBounds) x =
-        lookupB (Compile.toLinBounds
-          ((Analyzer.analyze m'.domain cs tol maxSteps).enforceable m'.domain).variableBounds) x := by
-      intro x; rw [lookupB_toLinBounds', lookupB_toLinBounds', hA.vb]
-    have key := linearizeWith_perm m hdom hnd hb
-    -- `linearizeWith` reads the model only through objective, direction and constraints
-    have hm : ∀ b d, linearizeWith m' b d = linearizeWith m b d := by
-      intro b d
-      unfold linearizeWith
-      simp only [ho, hobj, hc]
-    show (match linearizeWith m _ _, linearizeWith m' _ _ with
-      | .ok lm, .ok lm' => SameUpToDomainOrder lm lm'
-      | .error e, .error e' => e = e'
-      | _, _ => False)
-    rw [hm]
-    exact key
+    rw [hc]
+    cases hnf : Compile.normalizedForBounds m.constraints with
+    | none => simp
+    | some cs =>
+     dsimp only
+     have hA : A ((Analyzer.analyze m.domain cs tol maxSteps).enforceable m.domain)
+         ((Analyzer.analyze m'.domain cs tol maxSteps).enforceable m'.domain) :=
+       enforceable_A (analyze_A hp hn cs tol maxSteps) hp hn
+     have hdom := applyToDomain_A hA hp
+     have hnd : ((((Analyzer.analyze m.domain cs tol maxSteps).enforceable m.domain).applyToDomain m.domain).map
+         (·.name)).Nodup := by rw [applyToDomain_names]; exact hn
+     have hb : ∀ x, lookupB (Compile.toLinBounds
+           ((Analyzer.analyze m.domain cs tol maxSteps).enforceable m.domain).variableBounds) x =
+         lookupB (Compile.toLinBounds
+           ((Analyzer.analyze m'.domain cs tol maxSteps).enforceable m'.domain).variableBounds) x := by
+       intro x; rw [lookupB_toLinBounds', lookupB_toLinBounds', hA.vb]
+     have key := linearizeWith_perm m hdom hnd hb
+     -- `linearizeWith` reads the model only through objective, direction and constraints
+     have hm : ∀ b d, linearizeWith m' b d = linearizeWith m b d := by
+       intro b d
+       unfold linearizeWith
+       simp only [ho, hobj, hc]
+     show (match linearizeWith m _ _, linearizeWith m' _ _ with
+       | .ok lm, .ok lm' => SameUpToDomainOrder lm lm'
+       | .error e, .error e' => e = e'
+       | _, _ => False)
+     rw [hm]
+     exact key
 
 end AnRel
 end Rooc
